@@ -3933,6 +3933,28 @@ func recv2(n *node) {
 	}
 }
 
+// assignFromSelect assigns the value and the status received by select to the
+// operands of the communication clause "case x, ok = <-c:".
+func assignFromSelect(n *node) {
+	value := genValue(n.lastChild()) // received value
+	status := genValue(n)            // received status
+	dest0 := genValue(n.child[0])
+	dest1 := genValue(n.child[1])
+	doValue := !isBlank(n.child[0])
+	doStatus := !isBlank(n.child[1])
+	next := getExec(n.tnext)
+
+	n.exec = func(f *frame) bltn {
+		if doValue {
+			dest0(f).Set(value(f))
+		}
+		if doStatus {
+			dest1(f).SetBool(status(f).Bool())
+		}
+		return next
+	}
+}
+
 func convertLiteralValue(n *node, t reflect.Type) {
 	switch {
 	case n.typ.cat == nilT:
@@ -4041,6 +4063,12 @@ func clauseChanDir(n *node) (*node, *node, *node, reflect.SelectDir) {
 			case aAssignX:
 				assigned = m.anc.child[0]
 				ok = m.anc.child[1]
+				if isCommRecvAssign(m.anc) {
+					// The value and the status are received at the locations of the receive
+					// expression and of the statement, then assigned by the statement.
+					assigned = m
+					ok = m.anc
+				}
 			}
 			stop = true
 		case aSend:
